@@ -40,12 +40,12 @@ func (s FileSpec) String() string {
 
 // FileOpts restricts the drawn specs.
 type FileOpts struct {
-	MaxSize       int
-	AllowOdd      bool // harness-written legal oddities (uneven leaves, zero-length leaf)
-	AllowNoSizes  bool // interior nodes without BlockSizes
-	MultiBlock    bool // insist on more than one block
-	OnlyBuilder   bool
-	NoBuilder     bool
+	MaxSize      int
+	AllowOdd     bool // harness-written legal oddities (uneven leaves, zero-length leaf)
+	AllowNoSizes bool // interior nodes without BlockSizes
+	MultiBlock   bool // insist on more than one block
+	OnlyBuilder  bool
+	NoBuilder    bool
 }
 
 // DrawFileSpec reads a fixed number of tape cells (8) and decodes a spec.
